@@ -110,6 +110,9 @@ type searchCfg struct {
 	low    eval.Score
 	high   eval.Score
 	cancel int // poll index to cancel at; -1 never
+	// then: moves played on the board (same table kept) before the search with index thenAt
+	then   []string
+	thenAt int
 }
 
 func (cfg searchCfg) String() string {
@@ -177,7 +180,33 @@ func runSearchCase(c *caseCtx, zt *board.ZobristTable, zseed int64, fenStr strin
 	inner := makeTT(cfg.tt)
 	var results []string
 	before := boardObs(zt, b, true)
-	for _, d := range cfg.depths {
+	thenTok := ""
+	for i, d := range cfg.depths {
+		if len(cfg.then) > 0 && i == cfg.thenAt {
+			var toks []string
+			for _, h := range cfg.then {
+				cand, err := board.ParseMove(h)
+				if err != nil {
+					return
+				}
+				found := false
+				for _, m := range b.Position().PseudoLegalMoves(b.Turn()) {
+					if cand.Equals(m) {
+						if !b.PushMove(m) {
+							return
+						}
+						toks = append(toks, moveTok(m))
+						found = true
+						break
+					}
+				}
+				if !found {
+					return
+				}
+			}
+			thenTok = fmt.Sprintf(" then=%d:%s", i, strings.Join(toks, ";"))
+			before = boardObs(zt, b, true)
+		}
 		cctx := newCountingCtx(cfg.cancel)
 		rec := &recordingTT{TranspositionTable: inner, b: b, ctx: cctx}
 		sctx := &search.Context{Alpha: cfg.low, Beta: cfg.high, TT: rec}
@@ -209,7 +238,7 @@ func runSearchCase(c *caseCtx, zt *board.ZobristTable, zseed int64, fenStr strin
 	if len(hist) > 0 {
 		htok = strings.Join(hist, ";")
 	}
-	c.emit("absearch %d %s %d %d %d %s %s => %s || %s || %s", zseed, posTok(pos), turn, np, fm, htok, cfg.String(), strings.Join(results, " | "), before, after)
+	c.emit("absearch %d %s %d %d %d %s %s%s => %s || %s || %s", zseed, posTok(pos), turn, np, fm, htok, cfg.String(), thenTok, strings.Join(results, " | "), before, after)
 }
 
 // small endings and tactical positions on which depth <= 3 (quick) / 5 (thorough) stays cheap for the oracle
@@ -233,6 +262,11 @@ var searchFENs = []string{
 	"8/8/8/8/3b4/8/1n6/k1K5 w - - 0 1",
 	"7k/7p/7K/8/8/8/8/6R1 w - - 0 1",
 	"8/8/8/8/8/1k6/2q5/K7 w - - 0 1",
+	// the side that is behind can stalemate the other one move from here (the stalemate lies at the horizon)
+	"8/8/8/8/8/8/p2K4/k7 w - - 0 1",
+	"K7/P2k4/8/8/8/8/8/8 b - - 0 1",
+	"8/8/8/8/8/1K6/p7/k7 w - - 0 1",
+	"7k/7p/5K2/8/8/8/8/8 w - - 0 1",
 	// stalemates (side to move has no legal move and is not in check), also with the stalemated side ahead
 	"7k/5Q2/6K1/8/8/8/8/8 b - - 0 1",
 	"k7/P7/1K3p2/5p2/5p2/5P2/8/8 b - - 0 1",
@@ -352,6 +386,10 @@ func casesSearch(c *caseCtx, prop string) {
 			cfg := full
 			cfg.depths = []int{1, 2, maxd}
 			runSearchCase(c, zt, zseed, f, nil, cfg)
+			// and with the quiescence leaf
+			cfg.depths = []int{1, 2}
+			cfg.quiet = true
+			runSearchCase(c, zt, zseed, f, nil, cfg)
 		}
 		for i := 0; i < c.scale(60, 1200); i++ {
 			cfg := full
@@ -402,6 +440,33 @@ func casesSearch(c *caseCtx, prop string) {
 				runSearchCase(c, zt, zseed, f, nil, cfg)
 			}
 		}
+		// one table kept along a game with repetitions: the root is searched, the pieces shuffle out and
+		// back twice, the root is searched again - successors that now are third occurrences are worth 0
+		// whatever the table remembers about them
+		type rep struct {
+			f   string
+			cyc string
+		}
+		for _, rp := range []rep{
+			{"r5k1/8/8/8/8/8/8/6K1 w - - 0 1", "g1h1 g8h8 h1g1 h8g8"},
+			{"6k1/8/8/8/8/8/8/R5K1 b - - 0 1", "g8h8 g1h1 h8g8 h1g1"},
+			{"3k4/8/3K4/8/8/8/8/R7 w - - 0 1", "a1a2 d8c8 a2a1 c8d8"},
+			{"6k1/5ppp/8/8/8/8/5PPP/R5K1 w - - 0 1", "a1b1 g8h8 b1a1 h8g8"},
+			{"r5k1/8/8/8/8/8/8/6K1 w - - 0 1", "g1f1 g8f8 f1g1 f8g8"},
+		} {
+			for _, d := range []int{1, 2, 3} {
+				for _, q := range []bool{false, true} {
+					cfg := full
+					cfg.depths = []int{d, d}
+					cfg.quiet = q
+					cfg.tt = "size:65536"
+					cyc := strings.Fields(rp.cyc)
+					cfg.then = append(append([]string{}, cyc...), cyc...)
+					cfg.thenAt = 1
+					runSearchCase(c, zt, zseed, rp.f, nil, cfg)
+				}
+			}
+		}
 		// depth 0 = quiescence alone
 		for i := 0; i < c.scale(40, 800); i++ {
 			cfg := full
@@ -433,6 +498,7 @@ func casesSearch(c *caseCtx, prop string) {
 			runSearchCase(c, zt, zseed, f, nil, cfg)
 		}
 		gameTableChecks(c)
+		consoleTableChecks(c)
 	case "C12":
 		for i := 0; i < c.scale(25, 400); i++ {
 			f := pick()
@@ -448,6 +514,26 @@ func casesSearch(c *caseCtx, prop string) {
 					continue
 				}
 				runHaltCase(c, zt, zseed, f, cfg, n)
+			}
+		}
+		// roots at which a draw can be claimed on entry (threefold on the board, clock at 100): the halted
+		// search must hand the board back with that result
+		type hroot struct {
+			f string
+			h []string
+		}
+		for _, hr := range []hroot{
+			{"3k4/8/3K4/8/8/8/8/R7 w - - 0 1", strings.Fields("a1a2 d8c8 a2a1 c8d8 a1a2 d8c8 a2a1 c8d8")},
+			{fen.Initial, strings.Fields("g1f3 g8f6 f3g1 f6g8 g1f3 g8f6 f3g1 f6g8")},
+			{"1k6/8/1K6/8/8/8/8/7Q w - - 99 60", strings.Fields("h1h2")},
+		} {
+			for _, n := range []int{0, 1, 2, 3, 5, 8, 13, 21} {
+				cfg := full
+				cfg.depths = []int{2}
+				cfg.quiet = n%2 == 0
+				cfg.cancel = n
+				cfg.tt = "size:65536"
+				runSearchCase(c, zt, zseed, hr.f, hr.h, cfg)
 			}
 		}
 	}
